@@ -169,6 +169,85 @@ theorem deterministic {g g' : Graph} (hn : g.n = g'.n) (h : ∀ m a, a ∈ g.anc
 theorem loop_terminates (g : Graph) (hs : NoSelf g) : (kahnRun g).queue = [] :=
   (final_kahnRun hs).empty
 
+/-! ### Consequences stated outright (what a reader of `sorted_children` / `sorted_ancestors` relies on) -/
+
+/-- No variable is listed twice. -/
+theorem order_nodup {g : Graph} {r : Result} (h : build g = .ok r) : r.order.Nodup :=
+  (order_perm_nodes h).nodup_iff.2 List.nodup_range
+
+/-- Neither are dependents or dependencies. -/
+theorem children_ancestors_nodup {g : Graph} {r : Result} (h : build g = .ok r) (a : Nat) :
+    (r.children a).Nodup ∧ (r.ancestors a).Nodup :=
+  ⟨(children_in_order h a).nodup (order_nodup h), (ancestors_in_order h a).nodup (order_nodup h)⟩
+
+/-- The two tables are transposes of each other. -/
+theorem children_ancestors_dual {g : Graph} {r : Result} (h : build g = .ok r) (a b : Nat) :
+    b ∈ r.children a ↔ a ∈ r.ancestors b := by
+  rw [children_exact h, ancestors_exact h]
+
+/-- No variable is reported as depending on itself. -/
+theorem not_self_dependent {g : Graph} {r : Result} (h : build g = .ok r) (a : Nat) :
+    a ∉ r.children a ∧ a ∉ r.ancestors a := by
+  have hac : Acyclic g := ((accepts_iff g).1 ⟨r, h⟩).2.2.2
+  exact ⟨fun hm => hac a ((children_exact h a a).1 hm), fun hm => hac a ((ancestors_exact h a a).1 hm)⟩
+
+/-- Dependents of dependents are dependents (the tables are transitively closed). -/
+theorem children_transitive {g : Graph} {r : Result} (h : build g = .ok r) {a b c : Nat}
+    (hab : b ∈ r.children a) (hbc : c ∈ r.children b) : c ∈ r.children a :=
+  (children_exact h a c).2 (((children_exact h a b).1 hab).trans ((children_exact h b c).1 hbc))
+
+/-- Every direct dependency of the definitions is reported. -/
+theorem direct_dependency_reported {g : Graph} {r : Result} (h : build g = .ok r) {a b : Nat}
+    (hb : b < g.n) (hab : a ∈ g.anc b) : a ∈ r.ancestors b ∧ b ∈ r.children a :=
+  ⟨(ancestors_exact h a b).2 (.single ⟨hb, hab⟩), (children_exact h a b).2 (.single ⟨hb, hab⟩)⟩
+
+/-- Every reported dependent comes later in the order than the variable itself, every dependency earlier. -/
+theorem children_after_ancestors_before {g : Graph} {r : Result} (h : build g = .ok r) (a b : Nat) :
+    (b ∈ r.children a → r.order.idxOf a < r.order.idxOf b) ∧
+    (b ∈ r.ancestors a → r.order.idxOf b < r.order.idxOf a) :=
+  ⟨fun hm => (order_topological h ((children_exact h a b).1 hm)).2.2,
+   fun hm => (order_topological h ((ancestors_exact h b a).1 hm)).2.2⟩
+
+/-- The variable listed first depends on nothing, the one listed last has no dependent. -/
+theorem first_is_root_last_is_leaf {g : Graph} {r : Result} (h : build g = .ok r) :
+    (∀ x tl, r.order = x :: tl → r.ancestors x = []) ∧
+    (∀ x, r.order.getLast? = some x → r.children x = []) := by
+  constructor
+  · intro x tl ho
+    apply List.eq_nil_iff_forall_not_mem.2
+    intro a ha
+    have := ((children_after_ancestors_before h x a).2 ha)
+    rw [ho] at this
+    simp at this
+  · intro x hx
+    apply List.eq_nil_iff_forall_not_mem.2
+    intro b hb
+    have hr := (children_exact h x b).1 hb
+    obtain ⟨_, hbo, hlt⟩ := order_topological h hr
+    have hlen : r.order.idxOf b < r.order.length := List.idxOf_lt_length_iff.2 hbo
+    obtain ⟨ini, hini⟩ : ∃ ini, r.order = ini ++ [x] := by
+      rw [List.getLast?_eq_some_iff] at hx
+      exact hx
+    have hnd := order_nodup h
+    rw [hini] at hnd hlt hlen
+    have hxi : x ∉ ini := fun hm => by
+      rw [List.nodup_append] at hnd
+      exact hnd.2.2 x hm x (by simp) rfl
+    rw [List.idxOf_append_of_notMem hxi] at hlt
+    simp at hlt hlen
+    omega
+
+/-- "Exactly ..., each in that same order", at full strength: the reported list of dependents (dependencies)
+    of a variable is the ONLY list that is a sub-list of the graph order and has exactly the transitive
+    dependents (dependencies) as members. -/
+theorem children_ancestors_unique {g : Graph} {r : Result} (h : build g = .ok r) (a : Nat) (l : List Nat)
+    (hl : l.Sublist r.order) :
+    ((∀ b, b ∈ l ↔ Reach g a b) → l = r.children a) ∧ ((∀ b, b ∈ l ↔ Reach g b a) → l = r.ancestors a) :=
+  ⟨fun hm => sublist_ext_of_nodup hl (children_in_order h a) (order_nodup h)
+      (fun x => by rw [hm x, children_exact h]),
+   fun hm => sublist_ext_of_nodup hl (ancestors_in_order h a) (order_nodup h)
+      (fun x => by rw [hm x, ancestors_exact h])⟩
+
 /-! Non-vacuity: a diamond with a late root (0 → 2, 1 → 2, 1 → 3, 2 → 4, 3 → 4; `1` is a second root). -/
 private def diamond : Graph := Graph.ofLists [[], [], [0, 1], [1], [2, 3]]
 
